@@ -56,6 +56,14 @@ CHECKS = {
             "Trusts issubclass; shapes rejected by Python's own binding count as 'no method'; unsupplied-parameter "
             "differences are unspecified.",
             "DESIGN.md §4 C02"),
+    "C03": ("exploration",
+            "runtime identity monitor inside the selected method body and at the caller, over every call shape of a signature-set grammar",
+            "For every call shape (0-3 positionals x keyword subsets) each received parameter is compared by identity with the "
+            "supplied object or the method's own unique default, self with the instance, the result / raised exception with "
+            "what the body produced (traceback must pass through the method), and a uniquely applicable documented call "
+            "shape must run exactly that method.",
+            "Documented call shapes only (positional-by-keyword is not generated); applicability by isinstance on builtin classes.",
+            "DESIGN.md §4 C03"),
     "C04": ("exploration",
             "runtime differential monitor: long-lived function vs never-called twin on every call of a history (order pinned)",
             "Each call of a random history (failing calls, nested recurse / call_next / f.next with same and other "
